@@ -65,6 +65,11 @@ var historyPool = []string{
 	// heavy users of built-ins
 	"(1:50).A.map {|x| x * x}.select {|x| x % 3 == 0}.sum", "\"a,b,c\".split(sep: \",\")@uc", "{a: 1, b: 2}.map {|k, v| [k, v * 2]}.O", "[3, 1, 2].sort.rev.S", "%{1: 2}.items.M.keys",
 	"JSON.dec(`{\"k\": [1, 2, {\"z\": null}]}`).S", "[1, 2, 3]$(0)+", "1.try.{|x| x / 0}.catch(ZeroDivisionErr) {|e| e.msg}.val",
+	// built-in iterators run past their end (inside a call), calls whose only keywords come from ** expansions
+	"[1, 2]._iter.{|it| it.next; it.next; it.next}", "\"ab\"._iter.{|it| it.next; it.next; it.next}", "(1:3)._iter.{|it| it.next; it.next; it.next}", "2._iter.{|it| it.next; it.next; it.next}",
+	"{a: 1}._iter.{|it| it.next; it.next}", "%{1: 2}._iter.{|it| it.next; it.next}", "[1]._iter.try.{|it| it.next; it.next}.err.msg", "[1, 2, 3].lazyMap {|x| x}.{|it| it.next}",
+	"\"a,b\".split(**{sep: \",\"})", "{m: m{|x, greeting: \"hello\"| greeting}}.m(1, **{greeting: \"bye\"})", "[3, 1].join(**{sep: \"-\"})", "10.S(**{base: 2})", "1.try.split(**{sep: \"x\"}).err?",
+	"kw := {sep: \"|\", leak: 1}; \"a|b\".split(**kw)",
 	// attempts to alter built-ins
 	"Str2 := Str.bear({shout: m{.uc + \"!\"}}); Str2.new(\"a\").shout",
 	"{**Str, **{shout: m{.uc + \"!\"}}}.keys.len", "{**Int, **{triple: m{self * 3}}}", "{**Obj, **{hacked: 1}}.hacked", "{**Arr, **{first: 0}}", "{**Kernel, **{assert: 1}}", "{**Either, **{A: 1}}",
@@ -83,6 +88,9 @@ var probePool = []string{
 	"10 % (3 - 3)", "1 / 0", "8 // 0", "q := {|a, b| a // b}\nr := {|a| q(a, 0)}\nr(5)",
 	"nil.foo", "undefined_name_here", "raise ValueErr.new(\"probe\")", "p2 := {|n| raise TypeErr.new(\"p#{n}\") if n == 0; p2(n - 1)}\np2(2)",
 	"[1, 2, 3]@{|x| 6 // (x - 2)}", "<{|i| yield i if i < 1; recur(i + 1)}>.new(0).{|it| it.next; it.next}", "1 + \"a\"", "assertEq(1, 2)", "{a: 1}.b.c",
+	// exhausted built-in iterators and keyword-less calls
+	"[7]._iter.{|it| it.next; it.next}", "(1:2)._iter.{|it| it.next; it.next}", "\"z\"._iter.{|it| it.next; it.next}", "\"a b,c\".split", "{|x| \\_}(1)", "{m: m{|x, greeting: \"hello\"| [greeting, \\_]}}.m(1)",
+	"[3, 1].join", "10.S", "{a: 1}.keys",
 	// ordinary successful programs
 	"[1, 2, 3].sum", "\"#{1 + 1} ok\".p; 5", "{b: 1, a: 2}.keys", "(1:5).A.rev",
 }
